@@ -51,6 +51,9 @@ type recursionChecker struct {
 	// Necessary for building an error message 'cause user should understand where
 	// recursion was found.
 	path []string
+
+	// objects the number of objects entered on the way to the current node.
+	objects int
 }
 
 func (c *recursionChecker) check(node ischema.Node, types map[string]ischema.Type) error {
@@ -122,6 +125,8 @@ func (c *recursionChecker) check(node ischema.Node, types map[string]ischema.Typ
 
 	// We should check all fields in the object 'cause some of them can be required.
 	case *ischema.ObjectNode:
+		c.objects++
+		defer func() { c.objects-- }()
 		for _, n := range node.Children() {
 			if err := c.check(n, types); err != nil {
 				return err
@@ -161,10 +166,13 @@ func (c *recursionChecker) checkType(typeName string, types map[string]ischema.T
 	if !c.visit(typeName) {
 		err := c.createError()
 		c.path = c.path[:len(c.path)-1]
-		if typeName != c.path[0] {
+		if typeName != c.path[0] && c.objects > 0 {
 			// A cycle among other types. The checked (root) type does not
 			// require itself through it, and the example builder cuts such
-			// cycles off, so this is not reported.
+			// cycles off by leaving a property out, so this is not reported.
+			// Without an object on the way (types that are nothing but a
+			// reference to each other) there is nothing to leave out: the
+			// schema has no value at all and its example would be empty.
 			return nil
 		}
 		return err
